@@ -11,8 +11,10 @@ import (
 
 // Ctx carries the loaded program plus the derived call graph and entry points.
 type Ctx struct {
-	wrappers map[*ssa.Function]*storeWrap
-	keyPats []keyPattern
+	wrappers          map[*ssa.Function]*storeWrap
+	keyPats           []keyPattern
+	readers           map[string][]readerInfo
+	noReadCanon       int
 	memoWhy           map[*ssa.Lookup]string
 	memos             map[*ssa.Lookup]*memoInfo
 	expReads          map[string]map[string][]prefixUse
